@@ -349,10 +349,12 @@ func Lock(idp interface{}, try func() bool, lock func(), site int32) {
 		return
 	}
 	g := lookup()
-	if g.outside || (int(site) < len(siteOn) && !siteOn[site]) {
+	if g.outside {
 		lock()
 		return
 	}
+	// (also for sites whose yields are switched off: the holder may be parked
+	// inside a simnet operation, so blocking for real could hang the bubble)
 	id := ptrOf(idp)
 	for {
 		if stopped.Load() {
